@@ -3,7 +3,6 @@
 package main
 
 import (
-	"bufio"
 	"encoding/json"
 	"fmt"
 	"io"
@@ -19,6 +18,9 @@ import (
 	"github.com/TheCacophonyProject/thermal-recorder/motion"
 	"github.com/TheCacophonyProject/thermal-recorder/recorder"
 	"github.com/TheCacophonyProject/window"
+	"bytes"
+	"os/signal"
+	"syscall"
 )
 
 type rsStep struct {
@@ -59,11 +61,19 @@ func TestVerifRealSinks(t *testing.T) {
 	if err := json.Unmarshal(b, &all); err != nil {
 		t.Fatal(err)
 	}
-	fo, _ := os.Create(outp)
-	defer fo.Close()
-	bw := bufio.NewWriter(fo)
-	defer bw.Flush()
+	// results are collected in memory and written at the end: with VERIF_FSLIMIT the process itself runs under a
+	// file-size limit during "fillfs" stretches
+	bw := &bytes.Buffer{}
+	defer func() { os.WriteFile(outp, bw.Bytes(), 0644) }()
 	enc := json.NewEncoder(bw)
+	fsLimit := os.Getenv("VERIF_FSLIMIT") != ""
+	var unlimited syscall.Rlimit
+	if fsLimit {
+		// without a mountable file system: RLIMIT_FSIZE makes every write beyond a few hundred bytes fail (EFBIG)
+		syscall.Getrlimit(syscall.RLIMIT_FSIZE, &unlimited)
+		signal.Ignore(syscall.SIGXFSZ)
+		defer syscall.Setrlimit(syscall.RLIMIT_FSIZE, &unlimited)
+	}
 	for si, sc := range all.Scripts {
 		base := t.TempDir()
 		if small := os.Getenv("VERIF_SMALLFS"); small != "" {
@@ -119,7 +129,9 @@ func TestVerifRealSinks(t *testing.T) {
 						broken = false
 					}
 				case "fillfs":
-					if f, err := os.Create(filepath.Join(base, "filler")); err == nil {
+					if fsLimit {
+						syscall.Setrlimit(syscall.RLIMIT_FSIZE, &syscall.Rlimit{Cur: 300, Max: unlimited.Max})
+					} else if f, err := os.Create(filepath.Join(base, "filler")); err == nil {
 						chunk := make([]byte, 64*1024)
 						for {
 							if _, err := f.Write(chunk); err != nil {
@@ -135,6 +147,9 @@ func TestVerifRealSinks(t *testing.T) {
 						f.Close()
 					}
 				case "freefs":
+					if fsLimit {
+						syscall.Setrlimit(syscall.RLIMIT_FSIZE, &unlimited)
+					}
 					os.Remove(filepath.Join(base, "filler"))
 				case "snapreq":
 					mp.StartSnapshot = true
@@ -158,6 +173,9 @@ func TestVerifRealSinks(t *testing.T) {
 		}()
 		if broken {
 			os.Rename(dir+".off", dir)
+		}
+		if fsLimit {
+			syscall.Setrlimit(syscall.RLIMIT_FSIZE, &unlimited)
 		}
 		os.Remove(filepath.Join(base, "filler"))
 		mrec.Stop()
